@@ -245,6 +245,18 @@ def main():
                     proof_broken.append("leanchecker " + m)
                     cx.notes.append(outc[-800:])
 
+    # when the driver cannot be built from the regenerated files (translator refusal, a generated definition the hand-written
+    # code refers to is gone), the search for a concrete failing input still has to run: it then uses the model of the COMMITTED
+    # generated files - the tables of the unchanged tree - and says so in the replay
+    if not a.no_lean and proof_broken:
+        try:
+            leanb.driver()
+        except RuntimeError:
+            restored = leanb.restore_committed_generated()
+            cx.notes.append("lydrv does not build from the regenerated Generated/ files; the search for a failing input ran with the model "
+                            "built from the committed (unchanged-tree) files: " + ", ".join(restored))
+            proof_broken.append("search ran against the committed generated tables (%s)" % ", ".join(restored))
+
     # 5.-6. implementation + correspondence
     run_error = None
     try:
